@@ -105,7 +105,11 @@ def c15 (toks : List String) : String :=
             -- what the upstream received from the forwarder, and the tunnel error the dialogue's outcome becomes
             let r := connect auth req server
             let o := match mapOutcome r.2 with
-              | .connected => "connected"
+              | .connected =>
+                match afterDialogue server with
+                | some [] => "connected -"
+                | some d => s!"connected {toHex d}"
+                | none => "connected ?"
               | .hostUnreachable => "hostunreachable"
               | .timeout => "timeout"
               | .refused => "refused"
